@@ -16,11 +16,16 @@
     once no impl, one [_CONFLICTING_] const per sub-object; the reflexive pair; nothing else; the
     place is at the sub-object's actual offset ([ConvOffset.sub_at]: the sum of the prefix-sum
     offsets of the nested base fields), under sized regions and distinct field names along the
-    chain; end to end for every type of an accepted build ([C07_asref_whole_build]). *)
+    chain; end to end for every type of an accepted build ([C07_asref_whole_build]).
+    REFUTED ON THE MODEL (RefutedWitnesses*.v; open findings F24, F10): [C07_inherited_rename_collides_refuted_F24] --
+    the emitted impl has two functions named b_f; [C07_receiverless_forward_refuted_F10] -- a forwarded function without
+    receiver whose body mentions self. *)
 From Coq Require Import List NArith ZArith Bool String Lia.
 From PyxisModel Require Import Base Grammar SemTypes Registry Sem SemLemmas PlacementLemmas
      InheritLemmas RustExec ExecLemmas WholeBuild WholeBuildMore.
 Import ListNotations.
+
+From PyxisModel Require RefutedInputs RefutedWitnessesOrder RefutedWitnessesEmit RefutedWitnessesFn.
 
 Theorem C07_functions : forall R bases acc acc',
   inject_bases R bases O acc = Ok acc' ->
@@ -261,3 +266,51 @@ Theorem C07_asref_offsets_whole_build : forall order ptr mods st0 st p it0 gd td
             forall self, place_addr (st_reg st) td self (fst x) = Some (self + off)%N) h.
 Proof. exact conversions_offsets_whole_build. Qed.
 Print Assumptions C07_asref_offsets_whole_build.
+
+Theorem C07_inherited_rename_collides_refuted_F24 :
+  exists
+      (st0 st : sstate) (files : RefutedInputs.files_t) (fns : list
+                                                                 (option string * option vis *
+                                                                  option (list EmitFnReaders.eparam) *
+                                                                  option EmitFnReaders.ebody *
+                                                                  option bool)),
+      RefutedInputs.built [] 4 RefutedInputs.f24_mods st0 st files /\
+      RefutedInputs.side_ok st0 = true /\
+      option_map (fun td : type_def => map (fun f : sfunction => (sf_name f, sf_body f)) (td_assoc td))
+        (RefutedInputs.typedef_at st ["a"%string; "D"%string]) =
+      Some
+        [("f"%string, BField "x" "f"); ("b_f"%string, BField "x" "b_f"); ("b_f"%string, BField "b" "f")] /\
+      option_map (map RefutedWitnessesFn.fn_view) (RefutedInputs.impl_fns files "a.rs" "D") = Some fns /\
+      map
+        (fun
+           v : option string * option vis * option (list EmitFnReaders.eparam) *
+               option EmitFnReaders.ebody * option bool => (fst (fst (fst (fst v))), snd (fst v))) fns =
+      [(Some "f"%string, Some (EmitFnReaders.EBField "x" "f" []));
+       (Some "b_f"%string, Some (EmitFnReaders.EBField "x" "b_f" []));
+       (Some "b_f"%string, Some (EmitFnReaders.EBField "b" "f" []))] /\
+      ~
+      NoDup
+        (map
+           (fun
+              v : option string * option vis * option (list EmitFnReaders.eparam) *
+                  option EmitFnReaders.ebody * option bool => fst (fst (fst (fst v)))) fns).
+Proof. exact RefutedWitnessesFn.C07_C13_inherited_rename_collides_refuted_F24. Qed.
+Print Assumptions C07_inherited_rename_collides_refuted_F24.
+
+Theorem C07_receiverless_forward_refuted_F10 :
+  exists
+      (st0 st : sstate) (files : RefutedInputs.files_t) (f : Sexp.sexp) (params : 
+                                                                         list EmitFnReaders.eparam) 
+    (body : list Sexp.sexp),
+      RefutedInputs.built [] 4 RefutedInputs.f10_mods st0 st files /\
+      RefutedInputs.side_ok st0 = true /\
+      RefutedInputs.impl_fns files "a.rs" "D" = Some [f] /\
+      EmitFnReaders.fn_name f = Some "create"%string /\
+      EmitFnReaders.fn_params f = Some params /\
+      EmitFnReaders.fn_body f = Some body /\
+      RefutedInputs.has_receiver params = false /\
+      EmitFnReaders.fn_wrapper_body f =
+      Some (EmitFnReaders.EBField "b" "create" [EmitFnReaders.CAName "x"]) /\
+      In (Sexp.Atom "self") body /\ RefutedInputs.tokens_mention "self" body = true.
+Proof. exact RefutedWitnessesFn.C07_C13_receiverless_forward_refuted_F10. Qed.
+Print Assumptions C07_receiverless_forward_refuted_F10.
